@@ -70,7 +70,8 @@ def run_verus(path, which, threads=8, extra=()):
 
 DEFINITE = ('postcondition not satisfied', 'precondition not satisfied', 'assertion failed',
             'possible arithmetic underflow/overflow', 'possible division by zero', 'index out of bounds',
-            'possible index out of bounds', 'failed this postcondition', 'unreachable', 'loop invariant')
+            'possible index out of bounds', 'failed this postcondition', 'unreachable', 'loop invariant',
+            'unable to prove post-condition of closure', 'unable to prove precondition of closure')
 RESOURCE = ('rlimit', 'resource limit', 'timed out', 'timeout', 'canceled')
 
 
